@@ -50,7 +50,10 @@ def parse_newick(string):
                 branch_id = int(branch_id)
 
             # Add branch definition to overall definition
-            items[branch_id] = eval("{%s}" % string[start + 1:end])
+            # heights of structures that contain infinite pixels are written
+            # as inf / -inf
+            items[branch_id] = eval("{%s}" % string[start + 1:end],
+                                    {"inf": float("inf"), "nan": float("nan")})
 
             # Remove branch definition from string
             string = string[:start] + string[end + 1:]
